@@ -384,6 +384,7 @@ func main() {
 		{Name: "S-3clients", Props: []string{"C05"}, About: "three clients, one request each (2 params / 1 param / no route through parameter nodes)",
 			Quick: PS(8, 0, 1, 2, 3), Thorough: PS(16, 0, 1, -1), Body: sbody(true, [][]int{{0}, {7}, {3}}), MinOutcomes: 2},
 	}
+	sdrive.Budget = 0.6 // the rest of the time cap belongs to the sequential part below
 	cov, viols := sdrive.Collect(scens)
 	// ---- H part (coordinator only)
 	depth := 4
